@@ -346,8 +346,21 @@ func makeFlag(it Item) (*ldmodel.FeatureFlag, error) {
 		}
 		return &g, nil
 	}
+	// the decoded form, every other time through the encoding/json hook into a destination that is used again and again (a
+	// variable declared outside the loop that fills a store): what a document decodes to must not depend on what the
+	// destination held before
+	if text := it.Doc.Text(); len(text)%2 == 0 {
+		if err := json.Unmarshal([]byte(text), &reusedFlagDest); err == nil {
+			g := reusedFlagDest
+			return &g, nil
+		}
+	}
 	return &f, nil
 }
+
+var reusedFlagDest ldmodel.FeatureFlag
+var reusedSegmentDest ldmodel.Segment
+
 func makeSegment(it Item) (*ldmodel.Segment, error) {
 	s, err := serialization.UnmarshalSegment([]byte(it.Doc.Text()))
 	if err != nil {
@@ -374,6 +387,12 @@ func makeSegment(it Item) (*ldmodel.Segment, error) {
 			return nil, err
 		}
 		return &g, nil
+	}
+	if text := it.Doc.Text(); len(text)%2 == 0 {
+		if err := json.Unmarshal([]byte(text), &reusedSegmentDest); err == nil {
+			g := reusedSegmentDest
+			return &g, nil
+		}
 	}
 	return &s, nil
 }
